@@ -380,12 +380,11 @@ def campaign(prop, tier, verif_seed, nruns=None, jobs=None, out=sys.stdout):
         _, _, dig, _ = execute(mod, scn)
         if dig != all_digests[idx]:
             mism += 1
-    if mism:
-        raise HarnessFault('determinism spot check failed on %d of %d runs' % (mism, len(spot)))
 
     # 4. violations: minimise, replay in a fresh process, triage against known findings
     viols.sort(key=lambda t: t[0])
     reported = []
+    unreplayable = []
     kf_hits = {}
     seen_sigs = set()
     final_sigs = set()
@@ -400,7 +399,8 @@ def campaign(prop, tier, verif_seed, nruns=None, jobs=None, out=sys.stdout):
         path = write_replay(prop, mscn, mviol, dig)
         ok, txt = replay_fresh(path)
         if not ok:
-            raise HarnessFault('violation %s from run %d does not replay in a fresh process:\n%s' % (mviol['sig'], idx, txt[-2000:]))
+            unreplayable.append((mviol['sig'], idx, txt[-600:]))
+            continue
         if mviol['sig'] in final_sigs:
             continue
         final_sigs.add(mviol['sig'])
@@ -417,6 +417,14 @@ def campaign(prop, tier, verif_seed, nruns=None, jobs=None, out=sys.stdout):
         print('VIOLATION property=%s replay=%s' % (prop, path), file=out)
         reported.append(path)
 
+    if unreplayable and not reported:
+        raise HarnessFault('violation %s from run %d does not replay in a fresh process:\n%s' % unreplayable[0])
+    for u in unreplayable:
+        print('note: violation %s from run %d did not replay in a fresh process (process-history dependent)' % (u[0], u[1]), file=out)
+    if mism and not reported:
+        raise HarnessFault('determinism spot check failed on %d of %d runs' % (mism, len(spot)))
+    if mism:
+        print('warning: %d of %d re-executed runs gave a different digest in another process (results depend on process history)' % (mism, len(spot)), file=out)
     wall = time.monotonic() - t0
     # 5. evidence
     ev = {
